@@ -289,6 +289,24 @@ def selector_table(ctx, clause):
     return obs
 
 
+def target_classes_file_table(ctx, clause):
+    """file_target_classes: one class per line; surrounding blanks and empty lines are not part of a class name, corners and
+    prefixes are resolved like those of the target_classes list.  The reader is interpreted over a small document."""
+    from ..abseval import freeze
+    p = ctx.p
+    f = p.func("shexer.utils.factories.triple_yielders_factory:read_target_classes_from_file")
+    doc = ["http://e/A\n", "  http://e/B \t\n", "\n", "   \n", "<http://e/C>\n", "ex:D\r\n", "http://e/E"]
+    want = ["http://e/A", "http://e/B", "http://e/C", "http://ex/D", "http://e/E"]
+    ev = Evaluator(ctx, max_depth=8)
+    ev.initial_files = {freeze("classes.txt"): doc}
+    outs = ev.outcomes(f, {f.bound_params[0]: "classes.txt", f.bound_params[1]: {"ex": "http://ex/"}})
+    ok = outs == [("return", want)]
+    return [Ob(clause, "R-TABLE", "R-TABLE|target-classes-file", f.loc(), ok,
+               "a target-classes file yields its class names without surrounding blanks, empty lines skipped" if ok else
+               "target-classes file %r: expected %s, code gives %s - a class name that keeps its blanks matches nothing in the graph "
+               "and silently gets no shape" % ("".join(doc), want, outs))]
+
+
 def answers_unfiltered(ctx, clause):
     """The nodes behind a SPARQL / FOCUS selector are the answers of its query: what get_target_nodes returns is (a copy
     of) what the graph's query_single_variable returned - no filtering, re-typing or re-ordering step in between."""
@@ -373,8 +391,11 @@ def check(ctx, tier):
     obs += [o for o in ctx.attempt(filter_placement, ctx, "D-g", default=[]) if o.key.endswith("instance-pass")]
     obs += ctx.attempt(selector_table, ctx, "D-h", default=[])
     obs += ctx.attempt(answers_unfiltered, ctx, "D-h", default=[])
+    obs += ctx.attempt(target_classes_file_table, ctx, "D-h", default=[])
     obs += ctx.attempt(tracker_tables, ctx, "D-i", default=[])
     obs += ctx.attempt(lambda c, cl: prio.check(c, cl)[0], ctx, "D-j", default=[])
+    from ..rules import plumb as _plumb
+    obs += ctx.attempt(_plumb.namespace_orientation, ctx, "D-k", default=[])
     exceptions.apply(obs)
     floors = [Floor("rdf:type constants in the package", n_consts, 4), Floor("uses of rdf:type constants outside defaults", n_uses, 4),
               Floor("instantiation-property call sites", n_pl, 10), Floor("selection table rows", rows, 40)]
